@@ -164,9 +164,12 @@ def run_big(ctx):
     return n
 
 
-def kernel_setup(ctx, needed=("pyx2v.py",)):
+def kernel_setup(ctx, needed=("pyx2v.py",), soft=()):
+    """`needed`: translators without which the model cannot be built; `soft`: translators whose failure is a broken tie of this
+    property but leaves the executable model (and so the correspondence and the search for a failing input) intact."""
     ctx.make_overlay(need_kernel=True)
-    ok = ctx.regen_all(needed=needed)
+    ctx.regen_all(needed=tuple(needed) + tuple(soft))
+    ok = all(ctx.translator_ok.get(s, False) for s in needed)
     ok = ok and ctx.build_models(MODELS)
     return ok
 
